@@ -81,6 +81,9 @@ func TestC07_Lists(t *testing.T) {
 			c.Relation = "extend"
 			c.B = append([]string{}, a...)
 			extra := tb.DrawAllowed(rt, pool, excPool, 4)
+			if rapid.IntRange(0, 3).Draw(rt, "extendLong") == 0 {
+				extra = tb.PadAllowed(rt, extra) // a long extension: 16-48 further entries
+			}
 			for i, e := range extra {
 				pos := rapid.IntRange(0, len(c.B)).Draw(rt, fmt.Sprintf("extPos%d", i))
 				c.B = append(append(append([]string{}, c.B[:pos]...), e.Text), c.B[pos:]...)
@@ -89,6 +92,9 @@ func TestC07_Lists(t *testing.T) {
 		out := checkC07(c)
 		va := Satisfies(c.Expr, c.A).OK
 		classes := []string{"rel-" + c.Relation}
+		if len(c.B) >= 16 {
+			classes = append(classes, "related-list-16-or-more-entries")
+		}
 		if va {
 			classes = append(classes, "A-satisfies")
 			if c.Relation == "extend" {
